@@ -7,7 +7,7 @@ import subprocess
 
 from .common import (OUT, SPEC, MachineryError, Timer, build_harness, log, read_ndjson, tlc, tlc_stats, tree_hash,
                      write_json)
-from . import families, directed
+from . import families, directed, windows
 
 
 def run_harness(binp, scheds, workdir, tag):
@@ -117,6 +117,7 @@ def split_traces(records):
 
 
 NUM = {"quick": 120, "thorough": 1500}
+WNUM = {"quick": 150, "thorough": 4000}
 
 
 def run_family(fam, tier, sd, workdir, binp=None, use_cache=True):
@@ -136,8 +137,12 @@ def run_family(fam, tier, sd, workdir, binp=None, use_cache=True):
         if binp is None:
             binp = build_harness(workdir)
         n = NUM[tier]
-        scheds, envstates = families.generate(fam, n, sd, workdir)
-        scheds = directed.schedules(fam) + scheds
+        wtotal = None
+        if fam.startswith("win-"):
+            scheds, envstates, wtotal = windows.generate(fam, WNUM[tier], sd, workdir)
+        else:
+            scheds, envstates = families.generate(fam, n, sd, workdir)
+            scheds = directed.schedules(fam) + scheds
         records, crashes = run_harness(binp, scheds, workdir, fam)
         viol, states = observe(records, workdir, fam)
         traces = split_traces(records)
@@ -160,7 +165,7 @@ def run_family(fam, tier, sd, workdir, binp=None, use_cache=True):
                    trace_lines=len(records), observer_states=states, env_states=envstates,
                    executed_steps=executed, skipped_steps=skipped, kinds=kinds, violations=vout,
                    crashes=[dict(id=c["schedule"]["id"], msg=c["msg"]) for c in crashes],
-                   sample=sample, wall_s=t.s(), cached=False,
+                   sample=sample, wall_s=t.s(), cached=False, window_total=wtotal,
                    distinct_schedules=len({json.dumps(s["steps"], sort_keys=True) for s in scheds}))
         write_json(cpath, res)
         return res
